@@ -3,7 +3,9 @@ Thorough tier = the quick rules (already run) plus
   (a) re-extraction of the CPython contract tables from the stdlib source trees and comparison with the committed copies,
   (b) the checker self-validation corpus for this property (selftest/mutants.py): behaviour-breaking edits of the current tree that
       must fire, behaviour-preserving rewrites that must stay silent - scratch copies in a mkdtemp dir, removed afterwards.
-(a) and (b) are evidence about the checker, never about /repo: they cannot turn exit 0 into exit 1.
+  (c) four whole-tree behaviour-preserving transforms of /repo that must leave the check silent,
+  (d) the independently written seeded changes for this property (seeded/), (e) the same after re-formatting the changed tree.
+(a)-(e) are evidence about the checker, never about /repo: they cannot turn exit 0 into exit 1.
 """
 from __future__ import annotations
 
@@ -72,6 +74,18 @@ def run(an, rep, mod):
                 rc = res[rep.pid][0]
                 sres[sid] = {1: "caught", 0: "missed", 2: "not decided (analysis error)"}.get(rc, str(rc))
     rep.extra["selftest"]["seeded_changes"] = sres
+    # (e) the same seeded changes after re-formatting the changed tree (ast.unparse; every local renamed): the verdict may not depend on spelling
+    for tname in ("unparse", "rename"):
+        tres2 = {}
+        with cf.ThreadPoolExecutor(max_workers=8) as ex:
+            for sid, meta, res, err in ex.map(st_mod.run_one, [(i_, False, an.prog.repo, [tname]) for i_ in ids]):
+                if res is None:
+                    continue
+                rc = res[rep.pid][0]
+                tres2[sid] = {1: "caught", 0: "missed", 2: "not decided (analysis error)"}.get(rc, str(rc))
+                if tres2[sid] != sres.get(sid):
+                    print(f"SELFTEST-WEAKNESS property={rep.pid}: seeded change {sid} is '{sres.get(sid)}' as written but '{tres2[sid]}' after the transform '{tname}'")
+        rep.extra["selftest"][f"seeded_changes_after_{tname}"] = tres2
     print(f"thorough: seeded changes for {rep.pid}: " + ", ".join(f"{k}={v}" for k, v in sres.items()))
     for i, s, d in out:
         if s == "FAIL":
